@@ -41,6 +41,10 @@ type Package struct {
 	Cases []Case
 	// Prelude is the text after the package clause that every case may rely on (imports, shared types)
 	Prelude string
+	// Deps: packages in sub-directories (name → file → source) that the package imports as
+	// example.com/tvmod/<Name>/<dep>; they are translated in the same goose run and their
+	// definitions are loaded under the qualified names dep.X
+	Deps map[string]map[string]string
 }
 
 // Singletons splits a package into one package per case (used to isolate the case that crashes goose).
@@ -142,6 +146,7 @@ type Translation struct {
 	Partial  bool   // produced with -ignore-errors after a failure
 	Errors   []ConvError
 	Crashed  bool
+	DepV     map[string]string // emitted text of the packages in Package.Deps
 }
 
 type ConvError struct {
@@ -187,11 +192,24 @@ func (d *Driver) WritePackage(p *Package) error {
 			return err
 		}
 	}
+	for dep, files := range p.Deps {
+		if err := os.MkdirAll(filepath.Join(dir, dep), 0o755); err != nil {
+			return err
+		}
+		for name, src := range files {
+			if err := os.WriteFile(filepath.Join(dir, dep, name), []byte(src), 0o644); err != nil {
+				return err
+			}
+		}
+	}
 	return nil
 }
 
 func (d *Driver) runGoose(p *Package, out string, flags ...string) (int, string) {
 	args := append(append([]string{}, flags...), "-out", out, "./"+p.Name)
+	for _, dep := range sortedDeps(p) {
+		args = append(args, "./"+p.Name+"/"+dep)
+	}
 	cmd := exec.Command(d.GooseBin, args...)
 	cmd.Dir = d.ModDir()
 	cmd.Env = d.env
@@ -238,8 +256,25 @@ func (d *Driver) Translate(p *Package, flags ...string) *Translation {
 	if b, err := os.ReadFile(vfile); err == nil {
 		tr.V = string(b)
 	}
+	for _, dep := range sortedDeps(p) {
+		if b, err := os.ReadFile(filepath.Join(out, "example_com", "tvmod", p.Name, dep+".v")); err == nil {
+			if tr.DepV == nil {
+				tr.DepV = map[string]string{}
+			}
+			tr.DepV[dep] = string(b)
+		}
+	}
 	os.RemoveAll(out)
 	return tr
+}
+
+func sortedDeps(p *Package) []string {
+	var out []string
+	for d := range p.Deps {
+		out = append(out, d)
+	}
+	sort.Strings(out)
+	return out
 }
 
 // LoadSSA builds go/ssa for the generated package.
@@ -249,6 +284,9 @@ func (d *Driver) LoadSSA(p *Package) (*engine.Program, error) {
 		return nil, err
 	}
 	prog.InitAllow[ModPath+"/"+p.Name] = true
+	for dep := range p.Deps {
+		prog.InitAllow[ModPath+"/"+p.Name+"/"+dep] = true
+	}
 	return prog, nil
 }
 
